@@ -201,7 +201,7 @@ func OracleC07(o, twin *Outcome) []Violation {
 	vs = append(vs, checkShape(P, o)...)
 	vs = append(vs, checkDecision(P, o, wi.Items)...)
 	vs = append(vs, checkHistory(P, o, wi.Items)...)
-	if o.Returned && o.Src.Delivered < o.Cfg.Required() {
+	if o.Returned && o.Src.Delivered >= 0 && o.Src.Delivered < o.Cfg.Required() {
 		vs = append(vs, v(P, "under-read", "workflow returned after consuming %d bytes, %d are required", o.Src.Delivered, o.Cfg.Required()))
 	}
 	if twin != nil && o.Returned {
@@ -297,7 +297,7 @@ func OracleC11(o *Outcome) []Violation {
 		return vs
 	}
 	nb := o.Cfg.NumByte
-	if o.Src.Delivered != int64(nb) {
+	if o.Src.Delivered >= 0 && o.Src.Delivered != int64(nb) {
 		vs = append(vs, v(P, "bytes-consumed", "requested %d bytes, %d were consumed from the source", nb, o.Src.Delivered))
 	}
 	if nb < 16 {
